@@ -327,6 +327,44 @@ func checkC20(c *Check) {
 			}
 		}
 	}
+	// a reload is refused only for the reasons a fresh load of the same file would fail for: the id is not pooled, the
+	// system pool cannot be built, the PEM holds no certificate. A return in front of the RootCAs store under any other
+	// condition (a validity check of the reloader's own, say) keeps a CA trusted that the file no longer contains while a
+	// restart would trust the new one
+	for i, r := range returnsOf(upd) {
+		if mustPassBefore(upd, r, isRootStore) {
+			continue
+		}
+		fs := FactsOf(upd).At(r)
+		okReason := false
+		for cond, pol := range fs {
+			inner, neg := unwrapBool(cond)
+			truth := pol != neg
+			// !ok of a map lookup or of a lookup helper of the pool
+			if ex, isE := inner.(*ssa.Extract); isE && ex.Index == 1 && !truth {
+				if _, isL := ex.Tuple.(*ssa.Lookup); isL {
+					okReason = true
+				}
+				if hc, isC := ex.Tuple.(*ssa.Call); isC && hc.Common().StaticCallee() != nil && hc.Common().StaticCallee().Pkg == upd.Pkg {
+					if _, isB := ex.Type().Underlying().(*types.Basic); isB {
+						okReason = true
+					}
+				}
+			}
+			// err != nil of a dependency call (x509.SystemCertPool)
+			if bo, isB := inner.(*ssa.BinOp); isB && (bo.Op == token.NEQ || bo.Op == token.EQL) && isNilConst(bo.Y) && isErrorType(bo.X.Type()) {
+				if dc, _, isC := asCall(resolveCell(stripConv(bo.X))); isC && dc.Common().StaticCallee() != nil && !isOwnPath(pkgPathOf(dc.Common().StaticCallee())) && (bo.Op == token.NEQ) == truth {
+					okReason = true
+				}
+			}
+			// AppendCertsFromPEM == false
+			if dc, _, isC := asCall(resolveCell(stripConv(inner))); isC && isCallTo(dc, "crypto/x509.CertPool.AppendCertsFromPEM") && !truth {
+				okReason = true
+			}
+		}
+		c.Obl(okReason, "C20.R3", fmt.Sprintf("reload-refusal-reason/return#%d", i+1), P.Pos(instrPos(r)), "the reload is refused for an enumerated reason (id not pooled, no system pool, no certificate in the PEM)",
+			"updateCA can return without replacing RootCAs for a reason a fresh load does not have ("+fs.String()+"): the file's new content is never trusted by the running service although a restart would trust it")
+	}
 	c.Obl(okUpd, "C20.R3", "reload-mutates-pooled-object", P.Pos(upd.Pos()), "updateCA replaces RootCAs on the object pooled under the id (live clients see it)", "updateCA does not update the pooled object found under its id (clients created earlier keep the old roots)")
 
 	// ---- R4
@@ -385,6 +423,7 @@ func checkC20(c *Check) {
 			}
 		}
 	}
+	poolKeyEncodingInjective(c, "C20.R4", hash)
 	poolInsertIsFinal(c, "C20.R4")
 	transportIsOwn(c, "C20.R3")
 	tlsConfigFieldsAudited(c, "C20.R2")
@@ -436,6 +475,17 @@ func checkC20(c *Check) {
 						continue
 					}
 					if rc, idx, isC := asCall(l); isC && idx == 0 && isOwnPath(pkgPathOf(rc.Parent())) && isCallToAny(rc, "os.ReadFile", "io.ReadAll", "io/ioutil.ReadFile", "io/ioutil.ReadAll") {
+						// io.ReadAll reads the opened file itself, not a window onto it (io.LimitReader, a section reader)
+						if isCallToAny(rc, "io.ReadAll", "io/ioutil.ReadAll") && len(rc.Common().Args) == 1 {
+							src := resolveCell(stripConv(rc.Common().Args[0]))
+							if mi, isMI := src.(*ssa.MakeInterface); isMI {
+								src = resolveCell(stripConv(mi.X))
+							}
+							oc, oi, isOpen := asCall(src)
+							if !isOpen || oi != 0 || !isCallToAny(oc, "os.Open", "os.OpenFile") {
+								okRead, whyRead = false, "the content of "+descDepth(src, 3)+" (not the opened file itself: a bounded or partial read drops certificates at the end of a bundle)"
+							}
+						}
 						continue
 					}
 					okRead, whyRead = false, descDepth(l, 3)
@@ -955,4 +1005,167 @@ func tlsConfigFieldsAudited(c *Check, rule string) {
 		}
 	}
 	c.Obl(n >= 1, rule, "tls-config-fields", "-", fmt.Sprintf("%d tls.Config field writes in own code", n), "no tls.Config field write found (anchor lost)")
+}
+
+// varargElems returns the values stored into the elements of the array behind a variadic argument slice
+// (`slice t4[:]` of `new [n]any (varargs)`), by index; interface conversions are stripped.
+func varargElems(v ssa.Value) []ssa.Value {
+	sl, ok := v.(*ssa.Slice)
+	if !ok {
+		return nil
+	}
+	al, ok := sl.X.(*ssa.Alloc)
+	if !ok || al.Referrers() == nil {
+		return nil
+	}
+	out := map[int64]ssa.Value{}
+	max := int64(-1)
+	for _, r := range *al.Referrers() {
+		ia, isIA := r.(*ssa.IndexAddr)
+		if !isIA || ia.Referrers() == nil {
+			continue
+		}
+		k, isK := constInt(ia.Index)
+		if !isK {
+			return nil
+		}
+		for _, rr := range *ia.Referrers() {
+			if st, isS := rr.(*ssa.Store); isS && st.Addr == ia {
+				val := st.Val
+				if mi, isMI := val.(*ssa.MakeInterface); isMI {
+					val = mi.X
+				}
+				out[k] = val
+				if k > max {
+					max = k
+				}
+			}
+		}
+	}
+	res := make([]ssa.Value, max+1)
+	for k, v := range out {
+		res[k] = v
+	}
+	return res
+}
+
+// poolKeyEncodingInjective: the text that is hashed into the pool key determines the settings it was built from. A
+// variable-length setting written bare next to another one lets two different configurations produce the same
+// text (CA file "ca.pem" with refresh interval "10s", and CA file "ca.pem1" with interval "0s"): they would share
+// one pooled *tls.Config — one filter validating its IdP against the other filter's CA. Accepted per write: a
+// constant; a boolean (%t); a quoted value (%q); a value preceded by its length and a separator (`%d:%s` with
+// len(x), x); the JSON encoding of the settings.
+func poolKeyEncodingInjective(c *Check, rule string, hash *ssa.Function) {
+	P := c.P
+	n := 0
+	for _, ci := range allCalls(hash) {
+		callee := ci.Common().StaticCallee()
+		name := ""
+		if callee != nil {
+			name = callee.Name()
+		} else if ci.Common().IsInvoke() {
+			name = ci.Common().Method.Name()
+		}
+		if name != "WriteString" && name != "Write" && name != "WriteByte" && name != "WriteRune" {
+			continue
+		}
+		args := callArgs(ci)
+		if len(args) == 0 {
+			continue
+		}
+		data := resolveCell(stripConv(args[len(args)-1]))
+		if _, isK := data.(*ssa.Const); isK {
+			continue
+		}
+		// the sink itself: the collected bytes handed to the hash function
+		fromBuffer := false
+		for d := range dataDeps(data) {
+			if dc, isC := d.(*ssa.Call); isC && dc.Common().StaticCallee() != nil && (dc.Common().StaticCallee().Name() == "Bytes" || dc.Common().StaticCallee().Name() == "String") && len(dc.Common().Args) == 1 {
+				if strings.HasSuffix(typeID(dc.Common().Args[0].Type()), "bytes.Buffer") || strings.HasSuffix(typeID(dc.Common().Args[0].Type()), "strings.Builder") {
+					fromBuffer = true
+				}
+			}
+		}
+		if fromBuffer {
+			continue
+		}
+		n++
+		bad := ""
+		dc, _, isCall := asCall(data)
+		switch {
+		case isCall && isCallTo(dc, "fmt.Sprintf") && len(dc.Common().Args) == 2:
+			format, isK := constString(dc.Common().Args[0])
+			elems := varargElems(dc.Common().Args[1])
+			if !isK || elems == nil {
+				bad = "formatted with a format or arguments that are not visible"
+				break
+			}
+			type verb struct {
+				v   byte
+				lit string // literal text between the previous verb and this one
+			}
+			var verbs []verb
+			lit := ""
+			for i := 0; i < len(format); i++ {
+				if format[i] != '%' {
+					lit += string(format[i])
+					continue
+				}
+				if i+1 < len(format) && format[i+1] == '%' {
+					lit += "%"
+					i++
+					continue
+				}
+				j := i + 1
+				for j < len(format) && strings.IndexByte("+-# 0123456789.", format[j]) >= 0 {
+					j++
+				}
+				if j >= len(format) {
+					break
+				}
+				verbs = append(verbs, verb{format[j], lit})
+				lit = ""
+				i = j
+			}
+			if len(verbs) != len(elems) {
+				bad = "formatted with a verb count that does not match its arguments"
+				break
+			}
+			isLenOf := func(l, x ssa.Value) bool {
+				lc, isC := stripConv(l).(*ssa.Call)
+				if !isC {
+					return false
+				}
+				bi, isB := lc.Call.Value.(*ssa.Builtin)
+				return isB && bi.Name() == "len" && len(lc.Call.Args) == 1 && sameVal(lc.Call.Args[0], x)
+			}
+			for i, vb := range verbs {
+				switch vb.v {
+				case 't', 'q':
+				case 's', 'v':
+					if b, isB := elems[i].Type().Underlying().(*types.Basic); isB && b.Info()&types.IsBoolean != 0 {
+						break
+					}
+					if !(i > 0 && verbs[i-1].v == 'd' && isLenOf(elems[i-1], elems[i]) && vb.lit != "" && strings.IndexAny(vb.lit, "0123456789") < 0) {
+						bad = "the value " + descDepth(elems[i], 2) + " is written without its length or quoting"
+					}
+				case 'd':
+					if !(i+1 < len(verbs) && (verbs[i+1].v == 's' || verbs[i+1].v == 'v') && isLenOf(elems[i], elems[i+1])) {
+						bad = "the number " + descDepth(elems[i], 2) + " is written without a terminator"
+					}
+				default:
+					bad = "verb %" + string(vb.v) + " is not one of the recognised self-delimiting forms"
+				}
+			}
+		case isCall && (isCallTo(dc, "encoding/json.Marshal") || (dc.Common().StaticCallee() != nil && dc.Common().StaticCallee().Name() == "JSON")):
+		default:
+			if b, isB := data.Type().Underlying().(*types.Basic); isB && b.Info()&types.IsBoolean != 0 {
+				break
+			}
+			bad = "the value " + descDepth(data, 2) + " is written bare"
+		}
+		c.Obl(bad == "", rule, "pool-key-encoding-injective/"+nthCallKey(ci), P.Pos(ci.Pos()), "this part of the hashed text is self-delimiting",
+			"the text hashed into the pool key is ambiguous: "+bad+" — two different TLS settings can concatenate to the same text and share one pooled configuration (one filter then trusts the other filter's CA)")
+	}
+	c.Obl(n >= 1, rule, "pool-key-encoding-sites", "-", fmt.Sprintf("%d variable part(s) of the hashed text examined", n), "no write into the hashed text found in the key function (anchor lost)")
 }
